@@ -330,7 +330,7 @@ def gen_drv(tier, rng):
                     continue
                 cases.append(drv_case("fan", [(lo1, hi1, 0, d1, f1, False), (lo2, hi2, 0, d2, f2, False)], tag="same"))
     # (2) three placements
-    for _ in range(800 if not thorough else 12000):
+    for _ in range(800 if not thorough else 8000):
         ps = [rng.choice(slots) + (rng.choice(FORMS), rng.random() < 0.2) for _ in range(3)]
         if rng.random() < 0.6:   # bias to near-misses: a partition of the signal
             cut = sorted(rng.sample(range(1, 4), 2))
@@ -1035,7 +1035,7 @@ def gen_cyc(tier, rng):
                     rexpr(srcs, depth - 1, False), rexpr(srcs, depth - 1, False)]
         return ["c", rng.randrange(2), 1]
 
-    n = 600 if tier == "quick" else 4000
+    n = 600 if tier == "quick" else 2500
     for _ in range(n):
         # signals: s0 (up to 4 bits), s1 (up to 2 bits): <= 6 bits, plus an input s2
         w0, w1 = rng.randrange(2, 5), rng.randrange(1, 3)
@@ -1185,8 +1185,18 @@ def gen_kinds(tier, rng):
             if cd is not None:
                 case["cd"] = cd
             if arr in ("down", "up") and fb != tb and len(cases) % 2 and kind != "assign.partial":
-                # the cycle spans the hierarchy: body in submodule u1, closing edge in u1.u2, the rest on top
-                case["mods"] = [1] * nb + [2] + [0] * len(extra)
+                # the cycle spans the hierarchy: body in submodule u1, closing edge in u1.u2, the rest on top —
+                # unless the body's target also reaches the closing edge's bit (two modules driving one bit is a
+                # DriverConflict, not a cycle design)
+                body_bits = set()
+                for st_ in st[:nb]:
+                    st_ = norm_stmt(st_)
+                    if "asg" in st_:
+                        body_bits |= {bit for _k, bit, _sel in tgt_positions(st_["tgt"])}
+                    elif "sid" in st_:
+                        body_bits |= {(st_["sid"], i_) for i_ in range(st_["lo"], st_["hi"])}
+                if (0, fb) not in body_bits:
+                    case["mods"] = [1] * nb + [2] + [0] * len(extra)
             cases.append(case)
     for arr, fb, tb in arrangements:
         X = live(fb)
